@@ -1,7 +1,7 @@
 (* Proofs/ShiftOps.v — the translated shift.py equals Spec/Pseudocode for every width,
    operand and shift amount; the assertion failures are characterised exactly. *)
 From Coq Require Import ZArith Znumtheory Bool Lia ZifyBool List.
-From ArmV Require Import Lib.PyZ Spec.Pseudocode Proofs.BitLemmas Proofs.BitsOps.
+From ArmV Require Import Lib.PyZ Spec.Pseudocode Proofs.BitLemmas Proofs.SpecFacts Proofs.BitsOps.
 From Gen Require Import enums bits_ops shift.
 Open Scope Z_scope.
 Ltac Zify.zify_post_hook ::= Z.to_euclidean_division_equations.
